@@ -129,16 +129,20 @@ Beta(c)  == Scalars[c.be]
 
 (******************************* operand data ********************************)
 (* Values are small integers so that every sum any algorithm forms is exact   *)
-(* in float32.  Slots that the routine must not read hold a poison code       *)
-(* (PoisonBase + rule); the harness turns a poison code into a NaN carrying   *)
-(* the rule as payload and requires it back bit for bit.  pz selects the      *)
-(* poison code so that independence of the result can be checked.             *)
+(* in float32.  Slots that the documentation says are never accessed (stride   *)
+(* gaps, row padding, the other triangle, band corners, an implicit unit       *)
+(* diagonal, the slack tail) hold a poison code (PoisonBase + rule); the       *)
+(* harness turns a poison code into a NaN carrying the rule as payload and     *)
+(* requires it back bit for bit.  Slots whose VALUE must not matter but which  *)
+(* an implementation may touch arithmetically (the result operand when         *)
+(* beta = 0, the imaginary part of a Hermitian diagonal: gonum leaves the      *)
+(* treatment of NaN unspecified, so only finite garbage is legitimate there)   *)
+(* hold a large finite garbage value.  pz selects the poison code and the      *)
+(* garbage so that independence of the result can be checked.                  *)
 PoisonBase == 900000
 RulePad == 1     \* never addressed: stride gap, row padding, slack tail
 RuleTri == 2     \* the triangle that is not referenced / band corners
 RuleUnit == 3    \* implicit unit diagonal
-RuleBeta0 == 4   \* result operand when beta = 0
-RuleHermIm == 5  \* imaginary part of a Hermitian diagonal
 Poi(pz, rule) == IF Cx THEN <<pz + rule, pz + rule>> ELSE pz + rule
 
 Salt(t) == CASE t = "a" -> 3 [] t = "b" -> 5 [] t = "c" -> 4 [] t = "x" -> 2 [] t = "y" -> 6
@@ -154,6 +158,9 @@ UnitVal(t, s) == LET q == (s * Salt(t) + Seed) % 4
 MarkerBase == 600000
 PadNum(s) == IF Cx THEN <<700000 + (s % 50), 700100 + (s % 50)>> ELSE 700000 + (s % 50)
 Pad(pz, s) == IF (s + Seed) % 2 = 0 THEN Poi(pz, RulePad) ELSE PadNum(s)
+\* finite garbage (>= MarkerBase, < PoisonBase, different for different pz)
+Garb1(pz, s) == 700200 + (s % 50) + (pz - PoisonBase) \div 1000
+Garb(pz, s) == IF Cx THEN <<Garb1(pz, s), Garb1(pz, s) + 100>> ELSE Garb1(pz, s)
 
 InLayoutRect(d, s) ==
     CASE d.kind \in DenseKinds  -> s \div d.ld < d.r /\ s % d.ld < d.c
@@ -172,14 +179,14 @@ FillM(pz, t, d, len, mode) ==
         LET s == q - 1
             c == CellAt(d, s)
         IN IF c[1] < 0 THEN Unref(pz, d, s)
-           ELSE IF mode = "beta0" THEN Poi(pz, RuleBeta0)
-           ELSE IF c[1] = c[2] /\ d.kind \in HermKinds THEN <<V7(t, s, 0), pz + RuleHermIm>>
+           ELSE IF mode = "beta0" THEN Garb(pz, s)
+           ELSE IF c[1] = c[2] /\ d.kind \in HermKinds THEN <<V7(t, s, 0), Garb1(pz, s)>>
            ELSE IF mode = "solve" /\ c[1] = c[2] THEN UnitVal(t, s)
            ELSE Val(t, s, mode = "solve")]
 FillV(pz, t, n, inc, len, mode) ==
     [q \in 1 .. len |->
         IF VecElem(n, inc, q - 1) < 0 THEN Pad(pz, q - 1)
-        ELSE IF mode = "beta0" THEN Poi(pz, RuleBeta0)
+        ELSE IF mode = "beta0" THEN Garb(pz, q - 1)
         ELSE Val(t, q - 1, mode = "solve")]
 
 Inputs(c, pz) ==
@@ -238,7 +245,7 @@ Exact(cs) ==
        /\ cs.hasret => (IF cs.r \in {"asum", "iamax"} THEN cs.ret < lim ELSE MaxAbs(cs.ret) < lim)
 
 \* the routine writes only addressed slots (anything else keeps its value, poison included),
-\* no poison reaches an addressed slot, and unaddressed slots hold marker values that no
+\* neither poison nor garbage reaches an addressed slot, and unaddressed slots hold marker values that no
 \* result can take (so that a clobber, by zeroing or otherwise, cannot go unnoticed)
 WriteFootprint(cs) ==
     LET r == cs.r
@@ -253,14 +260,14 @@ WriteFootprint(cs) ==
          /\ Len(cs.out[o]) = Len(cs.in[o])
          /\ \A q \in DOMAIN cs.in[o] :
               IF addressed(o, q - 1)
-              THEN ~IsPoison(cs.out[o][q], PoisonBase) /\ q <= cs.need[o]
+              THEN (\A hh \in Parts : Abs(Part(cs.out[o][q], hh)) < MarkerBase) /\ q <= cs.need[o]
               ELSE cs.out[o][q] = cs.in[o][q] /\ (\A hh \in Parts : Part(cs.in[o][q], hh) >= MarkerBase)
 
 \* the expected result does not depend on what the poisoned slots hold
 PoisonIndependent(cs, c) ==
     LET r2 == Res(c, PoisonBase + 50000)
     IN /\ \A o \in DOMAIN cs.out : \A q \in DOMAIN cs.out[o] :
-            IsPoison(cs.out[o][q], PoisonBase) \/ cs.out[o][q] = r2[o][q]
+            (\E hh \in Parts : Part(cs.out[o][q], hh) >= MarkerBase) \/ cs.out[o][q] = r2[o][q]
        /\ cs.hasret => cs.ret = r2.ret
 
 \* the solves return the vector/matrix that satisfies the defining equation
